@@ -4,7 +4,7 @@ from srcgen import regen_src
 from srcreplay import replay_src  # translated source run in Coq vs the real outputs  # pre-build generator: pure Go functions -> Gen/SrcPure.v
 
 PROP = {
-    "coq": ["C19", "C19s"],
+    "coq": ["C19", "C19s", "C19b"],
     "pre": [regen_src],
     "extra": [replay_src({'timing'})],
     "exhaustive": False,
@@ -18,7 +18,14 @@ PROP = {
             "back-to-back ReadRegisters at 1200/9600/19200/115200 bps (thorough: 8 rates x 6 repetitions) against a fake device whose "
             "replies come late (client already blocked in Read), early (queued before the client reads) or mixed; the gap between "
             "the instant just before reply k is made available and the arrival of request k+1 must be >= t35(rate)."
-            " Scenario silencewindow: after a complete reply the caller busy-waits 80..97 % of t3.5 (counted from the client's last read of reply bytes) and issues the next request; the request must still not reach the line before t3.5.",
+            " Scenario silencewindow: after a complete reply the caller busy-waits 80..97 % of t3.5 (counted from the client's last read of reply bytes) and issues the next request; the request must still not reach the line before t3.5."
+            " Scenario silenceframing: real serial clients (NewClient rtu://<pty slave> + the real Open()) for every line setting "
+            "DataBits {7,8} x Parity {none,even,odd} x StopBits {unset,1,2} (9..12 bits per character) at 300 bps and one more of "
+            "600..4800 bps (thorough: 150..38400 bps, every setting at every speed) run 3-4 back-to-back ReadRegisters against a fake "
+            "device on the pty master that replies while the client is blocked in its read; the smallest gap between the instant just "
+            "before reply k is written and the arrival of the first byte of request k+1 is printed and must satisfy silence_okb of "
+            "Model/TimingLine.v (extracted): gap >= t35(speed), a function of the speed only (Properties/C19b.v). Line settings the "
+            "serial layer refuses are counted (silenceframing:skipped-open) and not run.",
     "assumptions": [
         "rates are 1..10^7 bps (rate 0 divides by zero in serialCharTime; uint rates above 2^63 do not fit time.Duration)",
         "the clock is monotone and time.Sleep(d) returns after at least d (Go runtime monotonic clock)",
